@@ -18,6 +18,7 @@ Definition TYPE_CREATOR : bytes := ascii_type (PAR2_0 ++ [67; 114; 101; 97; 116;
 Definition CLIENT_ID : bytes := [103; 111; 112; 97; 114].          (* "gopar" *)
 Definition EXT_PAR2 : bytes := [46; 112; 97; 114; 50].             (* ".par2" *)
 Definition MAXINT : N := 2 ^ 63 - 1.
+Definition MAXSLICE : N := 2 ^ 40.       (* maxSliceByteCount *)
 
 Definition pad4 (b : bytes) : bytes :=
   let r := (length b mod 4)%nat in if Nat.eqb r 0 then b else b ++ zeros (4 - r).
@@ -100,7 +101,7 @@ Section Par2.
       let slice := le_decode (firstn 8 body) in
       let cnt := le_decode (firstn 4 (skipn 8 body)) in
       let rest := skipn 12 body in
-      if (slice =? 0) || negb (slice mod 4 =? 0) || (MAXINT <? slice) then Err EMalformed
+      if (slice =? 0) || negb (slice mod 4 =? 0) || (MAXINT <? slice) || (MAXSLICE <? slice) then Err EMalformed
       else if cnt =? 0 then Err EMalformed
       else if negb (Nat.eqb (length rest mod 16) 0) then Err EMalformed
       else
